@@ -193,6 +193,8 @@ func famSign(tr *Trace, scratch string, seed int64, tier string, repo string) M 
 	// a callback AND a key file: the callback, if set, is what signs
 	for _, f := range []string{"deb", "rpm", "apk"} {
 		add(signCase{fmtName: f, method: map[string]string{"deb": "debsign"}[f], keyKind: "callback+keyfile", expectOK: true, keyName: "origin"})
+		// ... and when that callback fails the key file next to it is no way out: the signing that was asked for failed
+		add(signCase{fmtName: f, method: map[string]string{"deb": "debsign"}[f], keyKind: "callback-error+keyfile", failKind: "callback_error", keyName: "origin"})
 	}
 	add(signCase{fmtName: "deb", method: "dpkg-sig", keyKind: "callback", expectOK: true})
 	add(signCase{fmtName: "deb", method: "dpkg-sig", keyKind: "callback-error", failKind: "callback_error"})
@@ -224,7 +226,7 @@ func famSign(tr *Trace, scratch string, seed int64, tier string, repo string) M 
 			c.Maintainer = sc.maintain
 		}
 		isCb := strings.HasPrefix(sc.keyKind, "callback")
-		if sc.keyKind == "callback+keyfile" {
+		if strings.HasSuffix(sc.keyKind, "+keyfile") {
 			switch sc.fmtName {
 			case "deb":
 				c.DebSigKey = td + "privkey_unprotected.asc"
@@ -290,7 +292,7 @@ func famSign(tr *Trace, scratch string, seed int64, tier string, repo string) M 
 			fn := func(r io.Reader) ([]byte, error) {
 				b, _ := io.ReadAll(r)
 				got = append(got, b)
-				if sc.keyKind == "callback-error" || (sc.keyKind == "callback-flaky" && len(got) == 1) {
+				if strings.HasPrefix(sc.keyKind, "callback-error") || (sc.keyKind == "callback-flaky" && len(got) == 1) {
 					return nil, errCallback
 				}
 				return []byte("-----BEGIN PGP SIGNATURE-----\n\ncallback-signature\n-----END PGP SIGNATURE-----\n"), nil
@@ -311,7 +313,7 @@ func famSign(tr *Trace, scratch string, seed int64, tier string, repo string) M 
 			var sf *nfpm.ErrSigningFailure
 			ev["err"] = safeStr(strings.ReplaceAll(err.Error(), repo, "$REPO"))
 			ev["is_signing_failure"] = errors.As(err, &sf)
-			if sc.keyKind == "callback-error" || sc.keyKind == "callback-flaky" {
+			if strings.HasPrefix(sc.keyKind, "callback-error") || sc.keyKind == "callback-flaky" {
 				ev["wraps_cause"] = errors.Is(err, errCallback) || (sf != nil && errors.Is(sf.Err, errCallback))
 			} else {
 				ev["wraps_cause"] = sf != nil && sf.Err != nil
@@ -442,7 +444,7 @@ func famSign(tr *Trace, scratch string, seed int64, tier string, repo string) M 
 		if isCb {
 			ev["callback_calls"] = len(got)
 			names := make([]any, 0)
-			if err == nil || sc.keyKind == "callback-error" {
+			if err == nil || strings.HasPrefix(sc.keyKind, "callback-error") {
 				// for a failing callback the package is not available: rebuild unsigned ranges is impossible; only count calls
 				for _, g := range got {
 					hit := "unknown"
